@@ -131,6 +131,22 @@ func init() {
 			}
 			return r
 		},
+		rtPkg + "ExitCode": func(e *Engine, fr *frame, pos token.Pos, a []Value) (res Value) {
+			defer func() {
+				if r := recover(); r != nil {
+					if ex, ok := r.(exitPanic); ok {
+						res = term.SExt(ex.code, 64)
+						if ex.code.W == 64 {
+							res = ex.code
+						}
+						return
+					}
+					panic(r)
+				}
+			}()
+			e.call(fr, pos, a[0], nil)
+			return term.Const(64, ^uint64(0))
+		},
 		rtPkg + "SetCwd": func(e *Engine, _ *frame, _ token.Pos, a []Value) Value {
 			e.cwd = a[0].(string)
 			return nil
@@ -185,6 +201,9 @@ func init() {
 		"fmt.Print":                 func(e *Engine, _ *frame, _ token.Pos, a []Value) Value { return Tuple{cint(0), Iface{}} },
 		"fmt.Fprintf":               func(e *Engine, _ *frame, _ token.Pos, a []Value) Value { return Tuple{cint(0), Iface{}} },
 		"fmt.Sprint":                fmtSprint,
+		"fmt.Sprintln":              func(e *Engine, fr *frame, p token.Pos, a []Value) Value { return fmtSprint(e, fr, p, a).(string) + "\n" },
+		"fmt.Fprintln":              func(e *Engine, _ *frame, _ token.Pos, a []Value) Value { return Tuple{cint(0), Iface{}} },
+		"fmt.Fprint":                func(e *Engine, _ *frame, _ token.Pos, a []Value) Value { return Tuple{cint(0), Iface{}} },
 		"encoding/binary.Read":      binaryRead,
 		"encoding/binary.Write":     binaryWrite,
 		"path/filepath.Abs":         filepathAbs,
